@@ -159,7 +159,15 @@ func anyFileNewerThan(files []string, givenTime time.Time) (bool, error) {
 }
 
 // OnError implements the Checker interface
-func (*TimestampChecker) OnError(t *ast.Task) error {
+func (checker *TimestampChecker) OnError(t *ast.Task) error {
+	if len(t.Sources) == 0 {
+		return nil
+	}
+	// The marker was touched by the up-to-date check, before the commands
+	// ran: forget it, so that the failed run does not count as the last run.
+	if err := os.Remove(checker.timestampFilePath(t)); err != nil && !os.IsNotExist(err) {
+		return err
+	}
 	return nil
 }
 
